@@ -137,6 +137,7 @@ type Cluster struct {
 
 // ConnectCluster establishes control connections to each of the endpoints within a downstream cluster that is being proxied to.
 func ConnectCluster(ctx context.Context, config ClusterConfig) (*Cluster, error) {
+	config = verifClusterConfig(config)
 	c := &Cluster{
 		ctx:              ctx,
 		config:           config,
@@ -261,12 +262,14 @@ func (c *Cluster) mergeHosts(hosts []*Host) error {
 			delete(existing, key)
 		} else {
 			c.logger.Info("adding host to the cluster", zap.Stringer("host", host))
+			vhook("host.add", c, host)
 			c.sendEvent(&AddEvent{host})
 		}
 	}
 
 	for _, host := range existing {
 		c.logger.Info("removing host from the cluster", zap.Stringer("host", host))
+		vhook("host.remove", c, host)
 		c.sendEvent(&RemoveEvent{host})
 	}
 
@@ -400,6 +403,7 @@ func (c *Cluster) refreshHosts() {
 func (c *Cluster) setOutageTime(t time.Time) {
 	c.outageMu.Lock()
 	c.outageTime = t
+	vhook("outage", c, t.IsZero())
 	c.outageMu.Unlock()
 }
 
@@ -419,6 +423,7 @@ func (c *Cluster) stayConnected() {
 		if c.controlConn == nil {
 			if !pendingConnect {
 				delay := reconnectPolicy.NextDelay()
+				vhook("ctrl.delay", c, delay)
 				c.logger.Debug("control connection attempting to reconnect after delay", zap.Duration("delay", delay))
 				connectTimer = time.NewTimer(delay)
 				pendingConnect = true
@@ -451,6 +456,7 @@ func (c *Cluster) stayConnected() {
 				newListener.OnEvent(&BootstrapEvent{c.hosts})
 				c.listeners = append(c.listeners, newListener)
 			case <-refreshTimer.C:
+				vhook("refresh", c)
 				c.refreshHosts()
 				pendingRefresh = false
 			case event := <-c.events:
